@@ -1706,6 +1706,8 @@ def _all_any(is_all):
 
 LIB['numpy.all'] = _all_any(True)
 LIB['numpy.any'] = _all_any(False)
+LIBATTR[('ndarray', 'all')] = lambda interp, a: (lambda i2, **k: _all_any(True)(i2, a, **k))
+LIBATTR[('ndarray', 'any')] = lambda interp, a: (lambda i2, **k: _all_any(False)(i2, a, **k))
 
 
 @_np('isclose')
@@ -1714,6 +1716,28 @@ def np_isclose(interp, a, b, rtol=Fraction(1, 10 ** 5), atol=Fraction(1, 10 ** 8
     if isinstance(a, SArr) or isinstance(b, SArr):
         return A.elementwise2(a, b, f, '==')
     return f(a, b)
+
+
+@_np('ascontiguousarray')
+def np_ascontiguousarray(interp, a, dtype=None, **k):
+    """Returns its argument itself whenever that is already C-contiguous (which a view can be): modelled as *no copy*, the
+    case that matters for ownership clauses; values are the same either way."""
+    if isinstance(a, SArr) and dtype is None:
+        return a
+    return np_array(interp, a, dtype=dtype)
+
+
+@_np('iscomplex')
+def np_iscomplex(interp, a):
+    """element-wise: has a non-zero imaginary part (False for real dtypes)."""
+    if isinstance(a, SArr):
+        if a.dtype != 'complex':
+            return SArr(a.shape, lambda idx: False, 'bool')
+        snap = a._snapshot()
+        return SArr(a.shape, lambda idx: Not(eq(SCplx.lift(snap(idx)).im, 0)), 'bool')
+    if isinstance(a, (SCplx, complex)):
+        return Not(eq(SCplx.lift(a).im, 0))
+    return False
 
 
 @_np('iscomplexobj')
